@@ -1,23 +1,55 @@
 /-
-Driver of C17: case {"cfg":…, "rules":[…], "reqs":[…]} (format: RioModel/Model/RouterJson.lean;
+Driver of C17: case {"cfg":…, "rules":[…], "reqs":[…], "ops":[…]?} (format: RioModel/Model/RouterJson.lean;
 the "act" member of a rule only matters to the action trace, which is compared on the harness side).
   m : per request {"t": sorted ids of `routesOfList (Router.trace S q)` (with repetitions, if any),
                    "ts": sorted ids of `rawRoutesOfList (Router.trace S q)` (all stored routes),
                    "m": sorted ids of `Router.matchReq S q`,
-                   "fp": priority of the final route of `Router.getTrace`, "gp": of `Router.getRoute`}
+                   "fp": priority of the final route of `Router.getTrace`, "gp": of `Router.getRoute`,
+                   "tr": the trace forest of the tree-level tower in canonical text (`canonList`): node type,
+                         matched / executed flags, count, stored ids, children sorted}
       where `q` is the normalised request (`mkReq` = `Request::rebuild_with_config`)
 No "s": the property's own oracles (set(t) = set(m), fp = gp, last action-trace step = live action)
 are evaluated on the implementation by the harness; the flat specification is compared in C01.
 -/
 import Drivers.Common
 import RioModel.Model.RouterJson
+import RioModel.Model.RouterOps
 import RioModel.Model.RouterTreeParse
 open Lean Rio.Router
+
+/-- One operation of a history (format: harness/src/bin/c17.rs, `gen_history`); rules by pool index. -/
+def parseOp (pool : Array Route) (j : Json) : Except String Op := do
+  let kind ← J.field j "op" J.str
+  let routeAt (x : Json) : Except String Route := do
+    let i ← J.nat x
+    match pool[i]? with
+    | some r => pure r
+    | none => throw "pool index"
+  if kind == "insert" then return .insert (← J.field j "r" routeAt)
+  else if kind == "remove" then return .remove (← J.field j "id" J.str)
+  else if kind == "batch" then return .batchRemove (← J.field j "ids" (J.arr J.str))
+  else if kind == "change" then
+    return .changeSet (← J.field j "a" (J.arr routeAt)) (← J.field j "u" (J.arr routeAt)) (← J.field j "d" (J.arr J.str))
+  else if kind == "cache" then return .cache (← J.opt? j "n" J.nat)
+  else throw s!"op {kind}"
 
 def prioJson (o : Option Route) : Json :=
   match o with
   | some r => toJson r.priority
   | none => Json.null
+
+/-- The trace forest in a canonical text (same function in harness/src/bin/c17.rs): children sorted, because
+several matchers of the library keep their buckets in hash maps. -/
+partial def canon : Trace → String
+  | .mk m e c info ch =>
+    let kind := match info with
+      | .storage rs => "storage[" ++ ",".intercalate (sortedIds rs) ++ "]"
+      | .other k => k
+    let cs := (ch.map canon).toArray.qsort (· < ·)
+    s!"{kind}({if m then 1 else 0}{if e then 1 else 0} {c})" ++ "{" ++ ",".intercalate cs.toList ++ "}"
+
+def canonList (ts : List Trace) : String :=
+  ",".intercalate ((ts.map canon).toArray.qsort (· < ·)).toList
 
 def handle (j : Json) : Except String Json := do
   let cfg ← J.field j "cfg" J.cfg
@@ -25,7 +57,11 @@ def handle (j : Json) : Except String Json := do
   let reqs ← J.field j "reqs" (J.arr J.req)
   let E := envOf cfg
   let R := rules.map (mkRoute cfg)
-  let S := Router.build E R
+  -- with "ops": the router is what the history leaves behind (`Op.run`, the function of the `…_run` theorems)
+  let ops ← J.opt? j "ops" (J.arr (parseOp R.toArray))
+  let S := match ops with
+    | none => Router.build E R
+    | some h => runOps E h (Router.empty E)
   let qs := reqs.map (mkReq cfg)
   let m := qs.map (fun q =>
     let tr := S.getTrace E q
@@ -37,15 +73,29 @@ def handle (j : Json) : Except String Json := do
   -- `tree_trace_to_trace`); it must agree with the specification-level model
   let T := tenvOf cfg
   let O := towerTOps T
-  let ST := RouterG.build O R
+  let ST := match ops with
+    | none => RouterG.build O R
+    | some h => runOpsG O h (RouterG.empty O)
   let mt := qs.map (fun q =>
     let tr := RouterG.getTrace O ST q
     Json.mkObj [("t", J.ids (sortedIds tr.1)),
                 ("ts", J.ids (sortedIds (rawRoutesOfList (RouterG.trace O ST q)))),
                 ("m", J.ids (sortedIds (RouterG.matchReq O ST q))),
                 ("fp", prioJson tr.2), ("gp", prioJson (RouterG.getRoute O ST q))])
+  -- `Router::cache` leaves the trace FOREST alone (not only the listed routes, which is `trace_cache_tree`): not a
+  -- theorem — checked here on every history, by running it once more without its cache calls
+  match ops with
+  | some h =>
+    let ST' := runOpsG O (h.filter (fun op => match op with | .cache _ => false | _ => true)) (RouterG.empty O)
+    for q in qs do
+      if canonList (RouterG.trace O ST q) != canonList (RouterG.trace O ST' q) then
+        throw s!"model: the trace forest differs from the one of the same history without cache calls"
+  | none => pure ()
   if Json.arr mt.toArray != Json.arr m.toArray then
     throw s!"tree-level model {Json.compress (Json.arr mt.toArray)} differs from the specification-level model {Json.compress (Json.arr m.toArray)}"
-  return Json.mkObj [("m", Json.arr m.toArray)]
+  -- the trace STRUCTURE (node types, matched / executed flags, counts, stored ids) is the tree-level tower's:
+  -- the specification-level tower has no radix tree, hence no tree-shaped `regex` sub-traces
+  let out := (m.zip qs).map (fun (o, q) => o.setObjVal! "tr" (toJson (canonList (RouterG.trace O ST q))))
+  return Json.mkObj [("m", Json.arr out.toArray)]
 
 def main : IO Unit := Drv.run handle
